@@ -432,9 +432,11 @@ def step (op imm : Int) (s : St) : R St := do
   else if op = 0x80 then do
     let n := s.loop.toNat
     let s := { s with loop := 1 }
-    let (ixs, s) ← s.popLoop n
+    -- blocked after both IUPs in backward compatibility mode: returns before popping (fix 2e3eaf9)
     if s.bc ∧ s.iupx ∧ s.iupy then pure s
-    else flipLoop s ixs
+    else do
+      let (ixs, s) ← s.popLoop n
+      flipLoop s ixs
   -- FLIPRGON / FLIPRGOFF
   else if op = 0x81 ∨ op = 0x82 then do
     let (hi, s) ← s.popIdx
